@@ -48,12 +48,15 @@ pub fn evaluate_expression(expr: &str, facts: &Facts) -> Result<Value> {
 
     // Is it a string literal?
     if expr.len() >= 2 {
-        let unquoted = &expr[1..expr.len() - 1];
-        if (expr.starts_with('"') && expr.ends_with('"') && !unquoted.contains('"'))
-            || (expr.starts_with('\'') && expr.ends_with('\'') && !unquoted.contains('\''))
-        {
-            let unquoted = &expr[1..expr.len() - 1];
-            return Ok(Value::String(unquoted.to_string()));
+        // Slice only after both (ASCII) quotes are known to be there: for arbitrary
+        // text, byte 1 and byte len-1 need not be character boundaries.
+        let quoted_by = |quote: char| {
+            expr.starts_with(quote)
+                && expr.ends_with(quote)
+                && !expr[1..expr.len() - 1].contains(quote)
+        };
+        if quoted_by('"') || quoted_by('\'') {
+            return Ok(Value::String(expr[1..expr.len() - 1].to_string()));
         }
     }
 
@@ -84,7 +87,8 @@ fn find_operator(expr: &str, operators: &[char]) -> Option<usize> {
     let mut paren_depth = 0;
     let mut last_pos = None;
 
-    for (i, ch) in expr.chars().enumerate() {
+    // Byte offsets, not character counts: the caller slices `expr` with the result.
+    for (i, ch) in expr.char_indices() {
         match ch {
             '(' => paren_depth += 1,
             ')' => paren_depth -= 1,
@@ -120,8 +124,9 @@ fn apply_operator(left: &Value, op: &str, right: &Value) -> Result<Value> {
         return Ok(Value::String(concatenated));
     }
 
-    let left_num = left_num.unwrap();
-    let right_num = right_num.unwrap();
+    // A non-numeric operand is an evaluation error, not a panic.
+    let left_num = left_num?;
+    let right_num = right_num?;
 
     let result = match op {
         "+" => left_num + right_num,
